@@ -9,7 +9,7 @@ for name in sorted(os.listdir(root)):
         continue
     m = json.load(open(mp))
     files = ", ".join(os.path.basename(f) for f in (m.get("files") or []))
-    needs = (m.get("needs_to_manifest") or "").replace("|", "/").replace("\n", " ")
+    needs = " ".join((m.get("needs_to_manifest") or "").replace("|", "/").split())
     if len(needs) > 170:
         needs = needs[:167] + "…"
     cells = []
@@ -20,6 +20,6 @@ for name in sorted(os.listdir(root)):
 table = "\n".join(rows)
 p = "/verif/DESIGN.md"
 s = open(p).read()
-s = re.sub(r"<!-- SEEDED-TABLE -->.*?<!-- /SEEDED-TABLE -->|<!-- SEEDED-TABLE -->", "<!-- SEEDED-TABLE -->\n" + table + "\n<!-- /SEEDED-TABLE -->", s, count=1, flags=re.S)
+s = re.sub(r"<!-- SEEDED-TABLE -->.*?<!-- /SEEDED-TABLE -->|<!-- SEEDED-TABLE -->", lambda _m: "<!-- SEEDED-TABLE -->\n" + table + "\n<!-- /SEEDED-TABLE -->", s, count=1, flags=re.S)
 open(p, "w").write(s)
 print("table rows:", len(rows) - 2)
